@@ -199,7 +199,7 @@ def memoStep(setname, state, tiers):
 
 
 for pid in ("C01", "C02"):
-    P[pid]["runs"] += [memoStep("json", 0, QT), tierB("json", 2, 0, T), tierB("json", 3, 1, T)]
+    P[pid]["runs"] += [memoStep("json", 0, QT), tierB("json", 2, 0, T), tierB("json", 2, 1, T)]
     P[pid]["bounds"] += "; JSON facts: template j_basic (member, nested member, array element, string and bool members, mixed with a Go fact) on a decoded JSON tree with symbolic leaves"
     P[pid]["outside"] = P[pid]["outside"].replace("; JSON facts", "")
 for pid in ("C01", "C02", "C13"):
@@ -228,10 +228,11 @@ P["C12"]["bounds"] += "; behavioural equivalence: every rule of 13 templates eva
 P["C12"]["outside"] = "rule sets outside the template family; readers that return short reads without being at the end"
 P["C12"]["assumptions"] = TIERC_ASSUME + TIERB_ASSUME
 
-P["C10"]["runs"] += [tierB("control", 3, 0, QT, require_reach=["tierB:self-retract-fired", "tierB:complete-fired"]), tierB("controlp", 2, 1, T, require_reach=["tierB:self-retract-fired", "tierB:complete-fired"])]
+P["C10"]["runs"] += [tierB("control", 3, 0, QT, require_reach=["tierB:self-retract-fired", "tierB:complete-fired"]), dict(tierB("controlp", 1, 1, T), thorough={"wall": "30m"}, require_reach=["tierB:self-retract-fired", "tierB:complete-fired"])]
 P["C10"]["assumptions"] = TIERA_ASSUME + TIERB_ASSUME
 P["C10"]["bounds"] += "; Tier B: Retract (self / other / unknown) and Complete in the middle of real action lists (template b_retract) reached through FunctionCall -> GoValueNode.CallFunction -> reflect MethodByName/Call"
-P["C14"]["runs"] += [tierB("control", 3, 0, QT), tierB("controlp", 2, 1, T), tierB("nilp", 3, 4, QT, require_reach=["tierB:execute-returned"]),
+P["C14"]["runs"] += [tierB("actfail2", 2, 0, QT, require_reach=["tierB:execute-returned", "tierB:failing-action-fired"]), tierB("kind2", 2, 0, QT), tierB("kind2", 2, 8, QT, require_reach=["tierB:execute-returned", "tierB:flag-set-and-a-condition-fails"]),
+                     tierB("control", 3, 0, QT), tierB("controlp", 1, 1, T), tierB("nilp", 3, 4, QT, require_reach=["tierB:execute-returned"]),
                      tierB("failing", 2, 8, QT, require_reach=["tierB:execute-returned", "tierB:flag-set-and-a-condition-fails"])]
 P["C14"]["assumptions"] = TIERA_ASSUME + TIERB_ASSUME
 P["C14"]["bounds"] += "; Tier B: real failures chosen by the solver through the facts (index out of range, integer division by zero, panicking user method, nil pointer, kind mismatch, missing fact, missing map key, a failing parenthesised sub-expression, Complete() before a failing action; a failing sub-expression shared with a healthy rule); the same failing templates with ReturnErrOnFailedRuleEvaluation set (error names a rule whose memo-free evaluation fails, nothing fires)"
@@ -288,7 +289,11 @@ def reuseOther(setname, k, tiers):
 
 
 P["C08"]["runs"] += [reuseB("reuseq", 2, QT), reuseB("reuse", 2, T), reuseSameDC("reuseq", 2, QT), reuseSameDC("reuse", 2, T), reuseFetchOnly("reuseq", 2, QT), reuseOther("reusef", 2, QT)]
+P["C08"]["runs"] += [reuseB("reusej", 2, QT)]
 P["C02"]["runs"] += [reuseOther("reusef", 2, QT)]
+for pid in ("C01", "C02"):
+    P[pid]["runs"] += [tierB("memo2", 3, 0, QT), memoStep("memo2", 0, QT)]
+P["C10"]["runs"] += [tierB("ctl2", 2, 0, QT, require_reach=["tierB:execute-returned", "tierB:retract-and-complete-fired", "tierB:complete-then-dependent-actions-fired"])]
 P["C03"]["runs"] += [tierB("ctl1", 3, 0, QT, require_reach=["tierB:execute-returned", "tierB:complete-fired"])]
 P["C16"]["runs"] += [{"name": "tierB-removal-during-the-run", "pkgdir": "zztier", "harness": TIERC_H, "entry": "VerifTierBRemoval", "args": ["removal", 3], "tiers": QT,
                       "templates": tfiles(TB_SETS["removal"]), "replay_attempts": 150, "require_reach": ["tierB:removal-run-returned", "tierB:rule-removed-during-the-run"], "compare_events": False,
@@ -338,11 +343,11 @@ P["C18"] = {
               "init": ["strconv", "unicode/utf8"], "require_reach": ["c18:quoted"], "thorough": {"max_values": 300}, "bounds": "every 2-byte string constant"}]}
 
 
-HIST = ["h_remove", "h_reuse", "h_reuse_twice_lib", "h_reuse_twice_kb", "h_dup_later_resource", "h_dup_same_resource", "h_two_kbs", "h_dup_identical", "h_remove_among_kbs"]
+HIST = ["h_remove", "h_reuse", "h_reuse_twice_lib", "h_reuse_twice_kb", "h_dup_later_resource", "h_dup_same_resource", "h_two_kbs", "h_dup_identical", "h_remove_among_kbs", "h_deleted_name"]
 for sl in (0, 1):
     P["C16"]["runs"].append({"name": "c16-histories" + ("-stored" if sl else ""), "pkgdir": "zztier", "harness": TIERC_H, "entry": "VerifC16History", "args": [sl], "tiers": QT,
                              "templates": [h + ".recipe.json" for h in HIST], "require_reach": ["c16:history"] + (["c16:stored-and-loaded"] if sl else []), "replay_attempts": 60, "compare_events": False,
-                             "bounds": "9 build / remove / re-build histories run natively by the real builder and library (remove, reuse of the name, second removal at library and knowledge-base level, duplicate in a later and in the same resource, two knowledge bases in one library, removal from one of three knowledge bases that share a name or a version)" + (", then store -> load" if sl else "") + "; suffix on symbolic facts"})
+                             "bounds": "10 build / remove / re-build histories run natively by the real builder and library (remove, reuse of the name, second removal at library and knowledge-base level, duplicate in a later and in the same resource, two knowledge bases in one library, removal from one of three knowledge bases that share a name or a version)" + (", then store -> load" if sl else "") + "; suffix on symbolic facts"})
 P["C16"]["assumptions"] = TIERA_ASSUME + TIERB_ASSUME
 P["C16"]["bounds"] += "; Tier B: 7 histories (native prefix) continued symbolically: instantiate, Execute and FetchMatchingRules on symbolic facts (removed rules never evaluated / fired / matched, the reused name behaves exactly as its rule built alone), again after store -> load"
 P["C16"]["outside"] = "histories outside the 7 recipes; symbolic rule names (the Tier K of DESIGN §8 C16 over SMT strings is not built)"
